@@ -143,7 +143,7 @@ inductive Act
   | begin (b n : Nat) (sev : Sev) (mode : Mode) (args : Nat → Nat)
   | ctxAcquire | ctxCheck | ctxMake | ctxRelease | alloc | mark | markDone
   | qAcquire | append | qRelease | signal | wResolve | wAll | wNotify
-  | wkAcquire | wkPop | wkWait | wkSpurious | wkReacquire | wkRelease
+  | wkAcquire | wkPop (b : Nat) | wkWait | wkSpurious | wkReacquire | wkRelease
   | wkResolve | wkAll | wkNotify | wkFree
 
 /-- environment actions: a new call of getaddrinfo_a, a spurious wake-up.  Progress
@@ -156,7 +156,7 @@ def Act.isEnv : Act → Bool
 /-- actions that read or write ctx->req_list -/
 def Act.touchesQueue : Act → Bool
   | .append => true
-  | .wkPop => true
+  | .wkPop _ => true
   | .wkWait => true
   | _ => false
 
@@ -239,9 +239,11 @@ inductive Step (cfg : Cfg) (ga : Nat → Int) : S → Tid → Act → S → Prop
         { notifyB s (.sub i) b with spc := upd s.spc i .idle, loc := upd s.loc b .finished }
   | wkAcquire (s : S) (hpc : s.wpc = .lockQ) (hl : s.qlock = none) :
       Step cfg ga s .worker .wkAcquire { s with wpc := .top, qlock := some .worker }
-  | wkPop (s : S) (b : Nat) (q : List Nat) (hpc : s.wpc = .top) (hq : s.queue = b :: q) :
-      Step cfg ga s .worker .wkPop
-        { s with wpc := .popped b, queue := q, loc := upd s.loc b .worker }
+  -- the code pops the head (FIFO); the property does not pin the order in which queued requests
+  -- are served, so the model lets the resolver take ANY queued request
+  | wkPop (s : S) (b : Nat) (hpc : s.wpc = .top) (hq : b ∈ s.queue) :
+      Step cfg ga s .worker (.wkPop b)
+        { s with wpc := .popped b, queue := s.queue.erase b, loc := upd s.loc b .worker }
   | wkWait (s : S) (hpc : s.wpc = .top) (hq : s.queue = []) :
       Step cfg ga s .worker .wkWait { s with wpc := .waiting, qlock := none }
   | wkSpurious (s : S) (hpc : s.wpc = .waiting) :
